@@ -5,7 +5,7 @@
 //! validated by TLC against Builder.tla (BuilderTrace.tla).  Public API only.
 //!
 //! Scenario: {"name":..,"workers":W,"calls":[{"kind":"bind","addrs":[true,false,..]}|{"kind":"listen"}|{"kind":"uds"}],
-//!            "events":[{"k":"conn","s":p}|{"k":"fail","c":c}|{"k":"die","s":p}|{"k":"pend","c":c}|{"k":"unpend","c":c}]}
+//!            "events":[{"k":"conn","s":p}|{"k":"fail","c":c}|{"k":"die","s":p}|{"k":"die2","s":p}|{"k":"pend","c":c}|{"k":"unpend","c":c}]}
 //! Trace records: {"ev":"reset"} {"ev":"call","kind","addrs","ok"} {"ev":"run","workers","ok"}
 //!                {"ev":"conn","s","by"} {"ev":"fail","c"} {"ev":"die"} {"ev":"made","made":[..]}
 
@@ -416,20 +416,32 @@ pub fn run_scenario(sc: &Value, dir: &str, idx: usize) -> Vec<Value> {
                     sh.fail[c].store(true, Ordering::SeqCst);
                     out.push(json!({"ev": "fail", "c": c}));
                 }
-                "die" => {
+                "die" | "die2" => {
+                    // "die2" (two workers): a second poisoned connection right behind the first goes to the other worker
+                    // (round robin, nobody has noticed the first death), so both are dead when the next client connects
                     let p = e["s"].as_u64().unwrap_or(1) as usize;
+                    let want = if e["k"] == "die2" && workers == 2 { 2 } else { 1 };
                     let before: usize = made_now(&sh).iter().sum();
                     let dropped0 = sh.dropped.load(Ordering::SeqCst);
-                    sh.poison.store(true, Ordering::SeqCst);
-                    let _ = client(&addrs[p - 1], 300);
-                    wait_until(Duration::from_secs(3), || sh.poisoned.load(Ordering::SeqCst) > 0);
-                    // the worker thread unwinds, destroys its services (one per socket) and closes its connection queue;
-                    // nobody has noticed yet.  If the services survive the panic the worker did not die: no event
-                    let died = wait_until(Duration::from_millis(400), || sh.dropped.load(Ordering::SeqCst) >= dropped0 + nsock);
+                    let mut died = 0;
+                    for k in 0..want {
+                        let poisoned0 = sh.poisoned.load(Ordering::SeqCst);
+                        sh.poison.store(true, Ordering::SeqCst);
+                        let _ = client(&addrs[p - 1], 300);
+                        wait_until(Duration::from_secs(3), || sh.poisoned.load(Ordering::SeqCst) > poisoned0);
+                        // the worker thread unwinds, destroys its services (one per socket) and closes its connection queue;
+                        // nobody has noticed yet.  If the services survive the panic the worker did not die: no event
+                        if wait_until(Duration::from_millis(400), || sh.dropped.load(Ordering::SeqCst) >= dropped0 + (k + 1) * nsock) {
+                            died += 1;
+                        } else {
+                            break;
+                        }
+                    }
+                    sh.poison.store(false, Ordering::SeqCst);
                     thread::sleep(Duration::from_millis(100));
-                    if died {
-                        pending_die = Some(before + nsock);
-                        out.push(json!({"ev": "die"}));
+                    if died > 0 {
+                        pending_die = Some(before + died * nsock);
+                        out.push(json!({"ev": if died == 2 { "die2" } else { "die" }}));
                     } else {
                         out.push(json!({"ev": "survived"}));
                     }
